@@ -25,6 +25,7 @@ bool w(int id, int k, bool cond) { log_clause('W', id, k, cond ? 1 : 0, nullptr,
 void se(int id, int k, int snap, const void* a1, const void* a2) { log_clause('S', id, k, snap, a1, a2); point(); }
 int ret(int id, int snap, const void* a1, const void* a2) { log_clause('R', id, 0, snap, a1, a2); point(); return id * 8 + (snap & 7); }
 int& retref(int id, int snap, int& target, const void* a1) { log_clause('R', id, 0, snap, a1, &target); point(); return target; }
+const int& retcref(int id, int snap, const int& target, const void* a1) { log_clause('R', id, 0, snap, a1, &target); point(); return target; }
 std::string rets(int id, int snap, const void* a1) { log_clause('R', id, 0, snap, a1, nullptr); point(); return std::to_string(id * 8 + (snap & 7)); }
 std::runtime_error thr_std(int id, int snap) { log_clause('R', id, 0, snap, nullptr, nullptr); point(); return std::runtime_error("inst " + std::to_string(id)); }
 int thr_int(int id, int snap) { log_clause('R', id, 0, snap, nullptr, nullptr); point(); return id; }
@@ -90,7 +91,9 @@ ExecImpl::~ExecImpl() {
 void ExecImpl::fail(const char* props, const char* oracle, const std::string& text) {
   if (has_viol) return;
   has_viol = true; stop = true;
-  viol.props = props; viol.oracle = oracle; viol.text = text; viol.op_index = cur_op_index;
+  viol.props = props;
+  if (ctx_moved_mock && viol.props.find("C14") == std::string::npos) viol.props += ",C14";
+  viol.oracle = oracle; viol.text = text; viol.op_index = cur_op_index;
 }
 
 void ExecImpl::note(const std::string& s) {
@@ -111,6 +114,7 @@ void ExecImpl::run(const Plan& p) {
 void ExecImpl::step(const Op& op, bool nested) {
   if (stop) return;
   ++depth;
+  if (depth == 1) ctx_moved_mock = false;
   if (!shadow) g_last_op_kind = op.kind;
   if (!nested) ++st.ops[op.kind];
   {
